@@ -144,6 +144,14 @@ the machinery, never in the properties:
   (the clause now requires the receiver gone and "released at most once, here or at drop"); DropOldest counting an evicted
   item of any kind (an evicted marker cannot occur, A2b: its count is left open); `unsubscribe()` called twice in
   `Drop for StateIterator` (the record of released subscriptions is idempotent, like the call);
+* a third round (5 of 18): the effect hand-over loop bounded by a count, the release loop over `.iter().rev()`, the reducer
+  loop keeping a local copy of the state (always updated, unlike the seeded change C01-2): the selectors still found the
+  loops, but the inductive invariants no longer went through — a failed loop invariant or proof step *alone* is now
+  undecided unless the witness search produces a concrete failing input (on the 83 seeded changes this loses nothing:
+  every change that is caught by invariants only also has a concrete input); a blocking `send` for the DropOldest retry
+  (it can never wait: `blocking` now counts the calls that *may* wait — a blocking send on a full queue, a blocking
+  receive); `next()` leaving the receiver to `Drop` (harmless once the subscription handle, the last owner of the sending
+  end, is gone: the clause asks for one of the two);
 * (found by review, not by an edit) the model pinned `action_executed`, `effect_executed`, `state_notified`,
   `subscriber_notified` and "the shutdown marker counts as received" → only the counters of the balance
   equations are modelled, the marker may or may not be booked.
